@@ -7,7 +7,9 @@ namespace Driver.Status
 ops (both modes): `["edit",p,size,cid] ["touch",p] ["delete",p] ["editKeep",p,size,cid]
   ["redefine",t,{"deps":[p…],"targets":[p…],"uptodate":[item…]}]   item: ["const",b] ["none"] ["runOnce"] ["cfg",d]
   ["res",t] ["shell",b] ["custom",b|null]      ["checker","md5"|"ts"] ["forget",t] ["ignore",t] ["unmet",t]`
-model mode only: `["run",t,ok,always,[[p,size,cid]…],res|null] ["resetDep",t] ["peek",t]`
+model mode only: `["run",t,ok,always,[[p,size,cid]…],res|null] ["resetDep",t] ["peek",t] ["info",t]`
+  (`peek` = a `get_status(get_log=False)` only command such as `list -s`, `info` = `get_status(get_log=True)`; both
+  model the DB effect of a backend whose `remove` is write-through, i.e. dbm)
 monitor mode only (what the implementation was seen to do): `["skip",t] ["exec",t,ok,always,writes,res|null]
   ["reset",t,"processed"|"skip"|"failed"] ["ignskip",t]`
 
@@ -58,6 +60,7 @@ def parseEv (j : Json) : Option Ev :=
     | "unmet" => some (.op (.unmet (asNat a)))
     | "resetDep" => some (.op (.resetDep (asNat a)))
     | "peek" => some (.op (.peek (asNat a)))
+    | "info" => some (.op (.info (asNat a)))
     | "skip" => some (.skip (asNat a))
     | "ignskip" => some (.ignskip (asNat a))
     | _ => none
@@ -141,7 +144,8 @@ def resetObs (fixed : Bool) (s : St) (t : Nat) (s' : St) : String :=
 
 def preJ (fixed : Bool) (ntasks : Nat) (s : St) : Json :=
   mkArr ((List.range ntasks).map fun t =>
-    Json.mkObj [("status", Json.str (statusStr (s.status fixed t))), ("spec", Json.bool (s.spec t)),
+    Json.mkObj [("status", Json.str (statusStr (s.status fixed t))), ("statusLog", Json.str (statusStr (s.statusLog t))),
+                ("spec", Json.bool (s.spec t)),
                 ("ign", Json.bool (s.rcd t).ign)])
 
 def modelStep (fixed : Bool) (ntasks npaths : Nat) (s : St) (o : Op) : St × Json :=
@@ -152,11 +156,13 @@ def modelStep (fixed : Bool) (ntasks npaths : Nat) (s : St) (o : Op) : St × Jso
     | .run t ok always writes _ => runObs fixed s t ok always writes s'
     | .resetDep t => resetObs fixed s t s'
     | .peek t => statusStr (s.status fixed t)
+    | .info t => statusStr (s.statusLog t)
     | _ => "-"
   let amb : Bool := match o with
     | .run t _ _ _ _ => ambiguousAt s t
     | .resetDep t => ambiguousAt s t
     | .peek t => ambiguousAt s t
+    | .info t => ambiguousAt s t
     | _ => false
   (s', Json.mkObj [("pre", preJ fixed ntasks s), ("obs", Json.str obs), ("ambiguous", Json.bool amb),
     ("crashed", Json.bool s'.crashed), ("clock", toJson s'.clock),
